@@ -271,6 +271,13 @@ def run(ctx):
     # errors that arrive without a location do not pick up the location of whatever (possibly library) expression is under evaluation
     evaltables.rule_error_locations(ctx, "C15-single-origin")
 
+    # ------------------------------------------------------------------ C15-syntax-errors
+    ctx.rule("C15-syntax-errors", "a syntax error about a malformed sub-form ((if), (define), (lambda), (set! x), () nested in a top-level form that "
+                                  "goes on after it, also on later lines) carries no location or one at or before that sub-form's last token: "
+                                  "the crate's own lexer and parser followed on seven texts (readtables.py)")
+    from . import readtables as _rt15
+    _rt15.rule_syntax_error_locations(ctx, "C15-syntax-errors")
+
     # ------------------------------------------------------------------ C15-position
     ctx.rule("C15-position", "tokens are located from the lexer's position counters (bookkeeping: see C06-position)")
     nx = fb.find("<parser::lexer::Lexer as std::iter::Iterator>::next")
@@ -313,5 +320,6 @@ def run(ctx):
         if ids != want2:
             ctx.report("C15-position", "token-location/multi-line", "after a string / |identifier| / comment that spans lines the tokens x, y, z of %r are "
                        "located %s, expected %s: every later error of the program would be reported on the wrong line" % (text2, ids, want2), where_of(nx))
+    lexrun.rule_token_locations(ctx, "C15-position")
     from .c06 import run as _c06  # noqa: F401  (position table itself is decided by C06-position)
     return EXPLANATION, NOT_DECIDED
